@@ -15,6 +15,22 @@ pub fn generate(tier: &str, rng: &mut Rng) -> Vec<String> {
                   evs: vec!["i0102".into(), "e5".into(), "i03".into(), "i04".into()],
                   items: vec![vec![1, 2], vec![3], vec![4]], extra_polls: 4 }.line(),
     );
+    // rev1 S2: `Encoder::encode` fails on the second item after writing part of it — nothing of
+    // that item (neither the reserved 5-byte header nor the partial payload) may be sent, the first
+    // item is still delivered, then INTERNAL
+    for server in [true, false] {
+        for comp in [None, Some(tonic::codec::CompressionEncoding::Gzip)] {
+            for yield_thr in [0usize, 32768] {
+                for k in [0usize, 2, 3] {
+                    out.push(
+                        EncCase { server, comp, disable: false, yield_thr, buf_size: 8192, max: None,
+                                  evs: vec!["i0102".into(), format!("f{}.ee0304", k), "i05".into()],
+                                  items: vec![vec![1, 2], vec![5]], extra_polls: 4 }.line(),
+                    );
+                }
+            }
+        }
+    }
     let n = if thorough { 40000 } else { 4000 };
     for _ in 0..n {
         let (e, l) = (rng.chance(1, 2), rng.chance(1, 3));
